@@ -15,6 +15,7 @@ RULE = ("each case is a multi-conformation input: the repository's five conf-* f
         "Non-trivial: a reported group exists in a proper non-empty subset of the conformations, or >= 3 "
         "conformations; distinct = distinct input digests."
         " Same-state cases: alternate locations that repeat one set of coordinates (2-3 states on part of 1-3 residues; plain, --protonate-all, or -k with supplied hydrogens moved off the ideal positions): every conformation and AVR equal the structure written without alternate locations.")
+RULE = RULE + ' Round 8: the written table of a multi-conformation run shows the mean (two decimals; neighbour counts within 1, means of k+1/2 written the same way throughout a file).'
 ASSUMPTIONS = ["groups are identified across conformations by (chain, number, insertion code, atom name, type)",
                "determinants are compared per (type, partner label), which is what the output shows"]
 TIMEOUT = {"quick": 2400, "thorough": 14400}
